@@ -161,7 +161,7 @@ def obligations_of(g, crate):
     for m in g.marks:
         if m['item'] not in verified_items:
             continue
-        if m['kind'] in ('ensures', 'invariant', 'decreases'):
+        if m['kind'] in ('ensures', 'invariant', 'decreases') or (m['kind'] == 'proof' and m['label'] != 'proof'):
             obs.append(dict(id='%s/%s/%s' % (crate, m['item'], m['label']), item=m['item'], label=m['label'],
                             kind=m['kind'], props=m['props'], text=m['text']))
     for iid, meta in verified_items.items():
